@@ -63,6 +63,7 @@ type pConfig struct {
 	Alt, Acc     float32
 	LocTimestamp time.Time
 	HasLocation  bool
+	OmitTimes    bool // config.toml names neither min-secs nor max-secs nor preview-secs
 	Motion       pMotion
 }
 
@@ -89,8 +90,13 @@ func (c *pConfig) toml(outDir, sock string) string {
 	var sb strings.Builder
 	fmt.Fprintf(&sb, "[device]\nid = %d\nname = %s\n\n", c.DeviceID, tomlString(c.DeviceName))
 	fmt.Fprintf(&sb, "[lepton]\nframe-output = %s\n\n", tomlString(sock))
-	fmt.Fprintf(&sb, "[thermal-recorder]\noutput-dir = %s\nmin-disk-space-mb = %d\nmin-secs = %d\nmax-secs = %d\npreview-secs = %d\nconstant-recorder = %v\n\n",
-		tomlString(outDir), c.MinDiskMB, c.MinSecs, c.MaxSecs, c.PreviewSecs, c.Constant)
+	if c.OmitTimes {
+		// min-secs, max-secs and preview-secs left to their documented defaults (10, 600, 5)
+		fmt.Fprintf(&sb, "[thermal-recorder]\noutput-dir = %s\nmin-disk-space-mb = %d\nconstant-recorder = %v\n\n", tomlString(outDir), c.MinDiskMB, c.Constant)
+	} else {
+		fmt.Fprintf(&sb, "[thermal-recorder]\noutput-dir = %s\nmin-disk-space-mb = %d\nmin-secs = %d\nmax-secs = %d\npreview-secs = %d\nconstant-recorder = %v\n\n",
+			tomlString(outDir), c.MinDiskMB, c.MinSecs, c.MaxSecs, c.PreviewSecs, c.Constant)
+	}
 	if c.MinRefill == "" {
 		// partial section: min-refill left to its documented default (10 minutes)
 		fmt.Fprintf(&sb, "[thermal-throttler]\nactivate = %v\nbucket-size = %s\n\n", c.Throttle, tomlString(c.BucketSize))
